@@ -4,7 +4,7 @@ import LyModel.Yin.LemmasShape
 set_option linter.unusedSimpArgs false
 set_option linter.unusedVariables false
 namespace LyModel.Yin
-open LyModel LyModel.Utf8 LyModel.Generated LyModel.XmlText
+open LyModel LyModel.Utf8 LyModel.Generated LyModel.XmlText LyModel.XmlLex
 
 /-- the lexer state in which the substatements are read: an empty element (`/>` ahead), or between two tags in front of the
     children and the end tag -/
@@ -86,7 +86,7 @@ theorem head_ext (ns : List XNs) (kw : YKw) (fmt : Bool) (level : Nat) (name : B
 end LyModel.Yin
 
 namespace LyModel.Yin
-open LyModel LyModel.Utf8 LyModel.Generated LyModel.XmlText
+open LyModel LyModel.Utf8 LyModel.Generated LyModel.XmlText LyModel.XmlLex
 
 /-- closing an element at or above `base` removes no namespace: all of them were declared further out -/
 def NsStable (base : Nat) (ns : List XNs) : Prop := ∀ m, base ≤ m → nsRm m ns = ns
@@ -96,8 +96,7 @@ theorem matchKeyword_text (ns : List XNs) (hnsY : nsGet ns none = some yinNsUri)
   have h1 : (YangStr.matchKw sText).2.1 = 0 := by decide
   have h0 : sText.isEmpty = false := rfl
   have hl : sText.length = 4 := rfl
-  have hp : sText.isPrefixOf sText = true := by decide
-  simp only [matchKeyword, h0, hnsY, h1, hl, hp]
+  simp only [matchKeyword, h0, hnsY, h1, hl, textMatch_text]
   simp
 
 theorem matchKeyword_value (ns : List XNs) (hnsY : nsGet ns none = some yinNsUri) :
